@@ -150,6 +150,7 @@ def run(ctx):
         v = _fold(db, g.get("init")) if g and g.get("init") else None
         ctx.ob("R18.2", name, v == want, "src/dtoolbase/pdtoa.cxx:%d" % (g["line"] if g else 0), "%s = %s (IEEE-754 binary64: %s)" % (name, v, want))
 
+    _diyfp_formulas(ctx)
     # ------------------------------------------------------------ R18.3
     ps = db.fn("pstrtod")
     n_l = 0
@@ -167,6 +168,110 @@ def run(ctx):
             ctx.ob("R18.3", "pstrtod|scales-with-pow|%s" % (par.get("op", "call") if par else "call"), False, ps.loc(c),
                    "`%s`: the result is scaled by pow(10, e), which is not correctly rounded (1e23 parses to 1.0000000000000001e23, 5e-324 to 0)" % (show(par) if par else show(c)))
     ctx.ob("R18.3", "pstrtod|lint-ran", True, ps.loc(), "%d inexact-accumulation sites reported" % n_l)
+
+
+def _ev(db, n, env):
+    """Evaluate a small integer expression tree; env maps field/param short names to ints."""
+    n = strip_casts(n)
+    if n is None:
+        raise ValueError("empty")
+    k = n.get("k")
+    if k in ("int", "chr", "bool"):
+        return int(n["v"])
+    if k == "mem":
+        nm = n["n"].split("::")[-1]
+        b = peel(n.get("b"))
+        if b is not None and b.get("k") == "ref":
+            nm = b["n"] + "." + nm
+        if nm in env:
+            return env[nm]
+        g = db.globals.get(n["n"])
+        if g and g.get("init"):
+            return _fold(db, g["init"])
+        raise ValueError("unknown member " + nm)
+    if k == "ref":
+        if n["n"] in env:
+            return env[n["n"]]
+        g = db.globals.get(n["n"])
+        if g and g.get("init"):
+            v = _fold(db, g["init"])
+            if v is not None:
+                return v
+        raise ValueError("unknown name " + n["n"])
+    if k == "bin":
+        a, b = _ev(db, n["x"], env), _ev(db, n["y"], env)
+        op = n["op"]
+        if op == "+": return a + b
+        if op == "-": return a - b
+        if op == "*": return a * b
+        if op == "<<": return a << b
+        if op == ">>": return a >> b
+        if op == "&": return a & b
+        if op == "|": return a | b
+        if op == "==": return int(a == b)
+        if op == "!=": return int(a != b)
+        raise ValueError("operator " + op)
+    if k == "un" and n.get("op") == "-":
+        return -_ev(db, n["e"], env)
+    if k == "cond":
+        return _ev(db, n["x"], env) if _ev(db, n["c"], env) else _ev(db, n["y"], env)
+    raise ValueError("node " + str(k))
+
+
+def _diyfp_formulas(ctx):
+    """R18.4: the boundary and decode formulas of Grisu2 (Loitsch 2010, fig. 'boundaries'), evaluated
+    from the expression trees at sample points: m+ = (2f+1, e-1); m- = (4f-1, e-2) when f is the
+    hidden bit alone (the predecessor is half as far), else (2f-1, e-1)."""
+    db = ctx.db
+    ctx.rule("R18.4", "DiyFp::NormalizedBoundaries builds m+ = (2f+1, e-1) and m- = (4f-1, e-2) for f == hidden bit, else (2f-1, e-1); DiyFp(double) decodes (significand + hidden bit, biased - bias) and subnormals as (significand, min exponent + 1)")
+    fn = db.fn("DiyFp::NormalizedBoundaries")
+    hidden = 1 << 52
+    ctors = [c for c in fn.walk() if c.get("k") == "ctor" and c.get("f") == "DiyFp::DiyFp" and len(c.get("a", [])) == 2]
+    ctx.floor("R18.4", "DiyFp(f, e) constructions in NormalizedBoundaries", len(ctors), 3)
+    samples = [(hidden, 0), (hidden, -1074), (hidden + 1, 5), (3 << 51, -60), ((1 << 53) - 1, 971), (hidden, 971)]
+    # classify each construction by the formula it matches on all samples
+    found = {}
+    for c in ctors:
+        try:
+            vals = [(_ev(db, c["a"][0], {"f": f, "e": e}), _ev(db, c["a"][1], {"f": f, "e": e})) for f, e in samples]
+        except ValueError as ex:
+            ctx.ob("R18.4", "NormalizedBoundaries|evaluable", False, fn.loc(c), "cannot evaluate %s: %s" % (show(c), ex))
+            continue
+        for name, F in (("plus", lambda f, e: (2 * f + 1, e - 1)), ("minus-close", lambda f, e: (4 * f - 1, e - 2)), ("minus", lambda f, e: (2 * f - 1, e - 1))):
+            if vals == [F(f, e) for f, e in samples]:
+                found[name] = c
+    for name in ("plus", "minus-close", "minus"):
+        ctx.ob("R18.4", "NormalizedBoundaries|%s" % name, name in found, fn.loc(found[name]) if name in found else fn.loc(),
+               "boundary %s %s" % (name, "is built with the defined formula" if name in found else "is NOT built with the defined formula (%s)" % [show(c) for c in ctors]))
+    # which one is selected when f is the hidden bit
+    sel = [n for n in fn.walk() if n.get("k") == "cond"]
+    ok = False
+    if sel and "minus-close" in found and "minus" in found:
+        c = sel[0]
+        try:
+            ok = bool(_ev(db, c["c"], {"f": hidden, "e": 0})) and not _ev(db, c["c"], {"f": hidden + 2, "e": 0})
+            ok = ok and any(x is found["minus-close"] for x in walk(c["x"])) and any(x is found["minus"] for x in walk(c["y"]))
+        except ValueError:
+            ok = False
+    ctx.ob("R18.4", "NormalizedBoundaries|close-boundary-iff-power-of-two", ok, fn.loc(sel[0]) if sel else fn.loc(), "the close lower boundary is used exactly when f == hidden bit")
+    # decode
+    dc = [f for f in db.fns("DiyFp::DiyFp") if len(f.params) == 1 and f.params[0]["t"] == "double"]
+    if not dc:
+        ctx.broken("DiyFp(double) not found")
+    dc = dc[0]
+    assigns = {}
+    for n in dc.walk():
+        t = assigned_target(n)
+        if t and field_of(t[0]) in ("DiyFp::f", "DiyFp::e"):
+            assigns.setdefault(field_of(t[0]).split("::")[-1], []).append(t[1])
+    ok = False
+    try:
+        fs = sorted(_ev(db, r, {"significand": 12345, "biased_e": 1000}) for r in assigns.get("f", []))
+        es = sorted(_ev(db, r, {"significand": 12345, "biased_e": 1000}) for r in assigns.get("e", []))
+        ok = fs == sorted([12345 + hidden, 12345]) and es == sorted([1000 - 1075, -1075 + 1])
+    except ValueError:
+        ok = False
+    ctx.ob("R18.4", "DiyFp(double)|decode", ok, dc.loc(), "normal: (significand + 2^52, biased - 1075); subnormal: (significand, -1074)")
 
 
 def _fold(db, n):
